@@ -25,6 +25,8 @@ noncomputable def Acc.run (st : Acc) (L : List (Item K)) : Acc := L.foldl Acc.st
 theorem Acc.run_cons (st : Acc) (it : Item K) (L : List (Item K)) :
     st.run (it :: L) = (st.step it).run L := rfl
 
+theorem Acc.run_nil (st : Acc) : st.run ([] : List (Item K)) = st := rfl
+
 theorem Acc.run_append (st : Acc) (L M : List (Item K)) : st.run (L ++ M) = (st.run L).run M := by
   unfold Acc.run; rw [List.foldl_append]
 
@@ -43,7 +45,7 @@ theorem sweepGo_ok (m : Mode) (rule : Rule) (edges : List (P K × P K)) (d2 y0 y
         gapOk m rule edges d2 y0 y1 (st.run (L.map Prod.snd)).w (st.run (L.map Prod.snd)).f
           ((L.map Prod.snd).getLastD l) r = true)
   | [], st, l, R, h => by
-    simp only [List.nil_append, List.map_nil, List.getLastD_nil] at h ⊢
+    simp only [List.nil_append, List.map_nil, List.getLastD_nil, Acc.run_nil] at h ⊢
     constructor
     · intro hR
       subst hR
@@ -121,7 +123,12 @@ theorem filter_flip (p p' : Nat → Bool) (k : Nat) (hne : ∀ i, i ≠ k → p'
         constructor
         · rintro ⟨a, b⟩; exact ⟨by omega, b⟩
         · rintro ⟨a, b⟩; exact ⟨by omega, b⟩
-      simp only [e1, e2, e]
+      have hf : List.filter p' [n] = List.filter p [n] := by simp [List.filter_cons, e]
+      have i1 : (if k < n + 1 ∧ p k = true then 1 else 0) = (if k < n ∧ p k = true then 1 else 0) :=
+        if_congr e1 rfl rfl
+      have i2 : (if k < n + 1 ∧ p' k = true then 1 else 0) = (if k < n ∧ p' k = true then 1 else 0) :=
+        if_congr e2 rfl rfl
+      rw [hf, i1, i2]
       omega
 
 /-- the sweep counters describe the list `L` of items passed -/
@@ -131,11 +138,14 @@ structure AccInv (n : Nat) (st : Acc) (L : List (Item K)) : Prop where
   par : ∀ i, i < n → st.par.getD i false = oddAt L i
   f : st.f = fCount n L
 
+theorem oddAt_nil : oddAt ([] : List (Item K)) = fun _ => false := by
+  funext i; simp [oddAt, cnt]
+
 theorem accInv_init (n : Nat) : AccInv n (Acc.init n) ([] : List (Item K)) := by
   refine ⟨rfl, by simp [Acc.init], ?_, ?_⟩
   · intro i hi
     simp [Acc.init, oddAt, cnt, hi]
-  · simp [Acc.init, fCount, oddAt, cnt]
+  · simp [Acc.init, fCount, oddAt_nil]
 
 theorem cnt_snoc (L : List (Item K)) (it : Item K) (i : Nat) :
     cnt (L ++ [it]) i = cnt L i + (if it.tri = i + 1 then 1 else 0) := by
@@ -325,7 +335,8 @@ theorem fCount_link (q : P K) : ∀ (tris : List (P K × P K × P K)) (k : Nat) 
         have := (mem_triOf (List.mem_filter.mp hit).1).2.1
         simp only [beq_iff_eq]; exact this
       rw [z1, z2, z3]
-      simp
+      simp only [Nat.zero_add, Nat.add_zero]
+      by_cases hh : ((triOf t 1).filter (fun it => it.leftOf q)).length % 2 = 1 <;> simp [hh]
     rw [hhead]
     by_cases hc : covers q t = true
     · rw [if_pos hc, if_pos hc, List.length_cons, List.length_cons, ih]
@@ -339,10 +350,10 @@ theorem coverage_eq (inp : Input K) (q : P K) :
   unfold fCount checkItems
   rw [triItems_eq, List.range_eq_range']
   have := fCount_link q inp.tris 0 (edgeItems inp.edges)
-    (fun it hit => by rw [(mem_edgeItems hit).2]; exact le_refl _)
+    (fun it hit => by rw [(mem_edgeItems hit).2])
   rw [← this]
 
 theorem fCount_nil (n : Nat) : fCount n ([] : List (Item K)) = 0 := by
-  simp [fCount, oddAt, cnt]
+  simp [fCount, oddAt_nil]
 
 end Lyon.Slab
